@@ -54,6 +54,21 @@ type c17Big struct {
 	Blob []byte `tlv8:"1"`
 	K    uint8  `tlv8:"2"`
 }
+
+// tags over the whole byte range: 0x7f / 0x80 (signed-byte boundary), 0xfe and 0xff (0 is the list separator)
+type c17HighElem struct {
+	X uint8  `tlv8:"129"`
+	Y string `tlv8:"250"`
+}
+type C17HighTags struct {
+	A uint8         `tlv8:"126"`
+	B uint16        `tlv8:"127"`
+	C uint8         `tlv8:"128"`
+	D string        `tlv8:"200"`
+	E []byte        `tlv8:"254"`
+	F uint32        `tlv8:"255"`
+	L []c17HighElem `tlv8:"131"`
+}
 type C17BigList struct {
 	L []c17Big `tlv8:"5"`
 	T uint8    `tlv8:"6"`
@@ -337,6 +352,7 @@ func c17Targets() []c17Target {
 		{"AllKinds", reflect.TypeOf(C17AllKinds{})},
 		{"Inline", reflect.TypeOf(C17Inline{})},
 		{"BigList", reflect.TypeOf(C17BigList{})},
+		{"HighTags", reflect.TypeOf(C17HighTags{})},
 		{"rtp.SetupEndpoints", reflect.TypeOf(rtp.SetupEndpoints{})},
 		{"rtp.SetupEndpointsResponse", reflect.TypeOf(rtp.SetupEndpointsResponse{})},
 		{"rtp.StreamConfiguration", reflect.TypeOf(rtp.StreamConfiguration{})},
